@@ -340,7 +340,8 @@ def main():
             ck.tally("outcome", "ok, %d step(s)" % len(steps))
             if rep.get("span_overlap") and trace_ok:
                 ck.tally("hypothesis", "overlap without loss")
-        if i % 25 == 0 and not pn.startswith("golden"):
+        multi = len(steps) >= 2 or p.count("\n@@\n") >= 2
+        if (i % 25 == 0 or (multi and i % 4 == 0)) and not pn.startswith("golden"):
             cli_sample.append((i, p, f, unb64(r["out"])))
     # ---- (4) the command line has its own copy of the cleanup: same bytes as the library path
     def cli(item):
@@ -349,7 +350,20 @@ def main():
         try:
             open(os.path.join(d, "p.patch"), "w").write(p); open(os.path.join(d, "a.go"), "w").write(f)
             rc, so, se = vlib.run_gopatch(["-p", "p.patch", "a.go"], d)
-            return rc, open(os.path.join(d, "a.go"), "rb").read(), se
+            got = open(os.path.join(d, "a.go"), "rb").read()
+            # the changes of one patch file, each given as a patch file of its own (-p c0 -p c1 ...): the same bytes again
+            import c13
+            chs = c13.split_changes(p.encode())
+            if chs and len(chs) >= 2 and rc == 0:
+                open(os.path.join(d, "a.go"), "w").write(f)
+                argv = []
+                for j, ch in enumerate(chs):
+                    open(os.path.join(d, "c%d.patch" % j), "wb").write(c13.render([ch])); argv += ["-p", "c%d.patch" % j]
+                rc2, so2, se2 = vlib.run_gopatch(argv + ["a.go"], d)
+                got2 = open(os.path.join(d, "a.go"), "rb").read()
+                if rc2 != 0 or got2 != got:
+                    return rc2, got2, b"[each change as a patch file of its own] " + se2
+            return rc, got, se
         finally:
             shutil.rmtree(d, ignore_errors=True)
     for (i, p, f, want), (rc, got, se) in zip(cli_sample, vlib.pmap(cli, cli_sample)):
